@@ -27,6 +27,7 @@ LEVEL_TEXT = ("Exploration by generated-input search against algebraic laws with
               "parent, is_relative_to, resolution, '/'-prefixed part replaces, 'a/b' appends two tokens; L5 root.parent() is "
               "root. All token sequences of length <= 3 over a delicate 20-token alphabet are enumerated; a state machine "
               "explores join/parent/reparse/from_parts histories against a token-list model.")
+LEVEL_TEXT += ' Inequality is demanded too: the prefix, suffix, extensions, doubled-last, reversed and root variants of every token sequence must be unequal to it by == and != in both operand orders.'
 BUDGET_S = {"quick": 60, "thorough": 500}
 RULE = ("Token sequences over {'', a, 0, 1, 10, 01, -1, +1, ' 1', 1_0, ~, /, ~0, ~1, ~01, #, -, e-acute, emoji, ' '} and "
         "arbitrary text without backslashes; construction routes: parse of the reference spelling, from_parts (str tokens, "
